@@ -413,7 +413,7 @@ func main() {
 	})
 	_ = done2
 	_ = done3
-	c.Guard("all nine exact primitive classes present", len(classes) >= 8, fmt.Sprint(classes))
+	c.Guard("all eight exact primitive classes present (sphere, circle, box3, box2, line, cylinder, cone, capsule)", len(classes) >= 8, fmt.Sprint(classes))
 	c.Guard("1-Lipschitz trees checked", lipShapes > 1000, fmt.Sprint(lipShapes))
 	c.Finish(vlib.Coverage{
 		States: states + lipShapes, Transitions: pts + pairs, Evaluations: states + lipShapes, Nontrivial: states + lipShapes,
